@@ -114,6 +114,10 @@ type Engine struct {
 	pendingVal    int64
 	hasPendingVal bool
 
+	FrontierTarget int
+	Frontier       [][]Decision
+	Initial        [][]Decision
+
 	MaxSteps    int64
 	MaxPaths    int
 	MaxTraces   int
@@ -458,7 +462,11 @@ func (e *Engine) obligation(label, kind, detail, neg string) {
 	r := e.S.CheckSat()
 	switch r {
 	case "sat":
-		m, order := e.model()
+		var m map[string]string
+		var order []string
+		if _, dup := e.vioIndex[label+"|"]; !dup {
+			m, order = e.model()
+		}
 		e.S.Send("(pop)")
 		e.recordViolation(label, kind, detail, m, order, "")
 	case "unsat":
@@ -479,7 +487,11 @@ func (e *Engine) obligation(label, kind, detail, neg string) {
 		e.S.Send("(assert (and " + neg + " " + reg + "))")
 		r := e.S.CheckSat()
 		if r == "sat" {
-			m, order := e.model()
+			var m map[string]string
+			var order []string
+			if _, dup := e.knownSeen[label+"|"+k.ID]; !dup {
+				m, order = e.model()
+			}
 			e.S.Send("(pop)")
 			e.recordViolation(label, kind, detail, m, order, k.ID)
 		} else {
@@ -612,17 +624,35 @@ func modelLit(val string, k types.BasicKind) string {
 }
 
 // Explore runs fn repeatedly until the decision tree is exhausted.
+//
+// With FrontierTarget > 0 the tree is expanded breadth-first until that many prefixes are
+// pending; they are left in Frontier for other workers (phase 1 of a parallel run).
 func (e *Engine) Explore(run func()) {
 	t0 := time.Now()
-	e.work = [][]Decision{nil}
+	if e.Initial != nil {
+		e.work = e.Initial
+	} else {
+		e.work = [][]Decision{nil}
+	}
 	for len(e.work) > 0 {
+		if e.FrontierTarget > 0 && len(e.work) >= e.FrontierTarget {
+			e.Frontier = e.work
+			e.work = nil
+			break
+		}
 		if e.Res.Paths >= e.MaxPaths || time.Now().After(e.Deadline) {
 			e.Res.BudgetExceeded = true
 			e.noteInconclusive(fmt.Sprintf("exploration budget exceeded with %d pending prefixes", len(e.work)))
 			break
 		}
-		p := e.work[len(e.work)-1]
-		e.work = e.work[:len(e.work)-1]
+		var p []Decision
+		if e.FrontierTarget > 0 {
+			p = e.work[0]
+			e.work = e.work[1:]
+		} else {
+			p = e.work[len(e.work)-1]
+			e.work = e.work[:len(e.work)-1]
+		}
 		e.runPath(p, run)
 	}
 	e.Res.WallSeconds = time.Since(t0).Seconds()
